@@ -6,6 +6,7 @@ CONSTANTS
   MaxRecs = 2
   AllowMixed = TRUE
   NCorrupt = 6
+  Subst0 = {48}
   Lens = {0, 2, 5}
 INIT Init
 NEXT Next
